@@ -55,6 +55,15 @@ def value_range(fn, ap, depth=0):
     k = root[0]
     if k == "const" and isinstance(root[1], int) and not projs:
         return (root[1], root[1])
+    if k == "discr" and not projs:
+        # the discriminant of an enum: its declared values (from the MIR statement that reads it)
+        for i, j, st in fn.stmts():
+            rv = st.get("rv", {})
+            if rv.get("k") == "discr" and rv.get("variants") and fn.apath_place(rv["place"]) == root[1]:
+                vals = [v[0] for v in rv["variants"] if isinstance(v[0], int)]
+                if vals and len(vals) == len(rv["variants"]):
+                    return (min(vals), max(vals))
+        return None
     if k == "cast" and not projs:
         inner = value_range(fn, root[2], depth + 1)
         frm = None
